@@ -125,6 +125,15 @@ func bigGen(g *G, tier string) []M {
 	// sequences on the process-wide registries followed by ordinary use: removing a driver twice,
 	// removing one that was never there, replacing one. Last, because a registry left locked stalls
 	// everything after it (the watchdog reports the first stalled call).
+	// one reader used for documents of different formats, with detection: each parse gives what a fresh
+	// reader told the format gives
+	ops = append(ops, M{"op": "readerReuse", "order": []any{"cdx", "spdx", "cdx", "spdx"}}, M{"op": "readerReuse", "order": []any{"spdx", "cdx", "cdx14", "spdx"}})
+	// inputs that are no SBOM at all but long: detection answers, it does not search for ever
+	for _, n := range []int{70000, 1<<20 + 1, 3 << 20} {
+		for _, shape := range []string{"one-line", "line-between", "cut-json"} {
+			ops = append(ops, M{"op": "sniffLong", "bytes": float64(n), "shape": shape})
+		}
+	}
 	ops = append(ops, M{"op": "registryChurn", "side": "reader"}, M{"op": "registryChurn", "side": "writer"})
 	// the check of one property runs only the operations that can concern it (VERIF_PROP is set by
 	// /verif/check; without it every operation runs)
@@ -151,6 +160,12 @@ func ExecBig(op M) (res any) {
 	}()
 	if asStr(op["op"]) == "registryChurn" {
 		return registryChurn(asStr(op["side"]))
+	}
+	if asStr(op["op"]) == "readerReuse" {
+		return readerReuse(asList(op["order"]))
+	}
+	if asStr(op["op"]) == "sniffLong" {
+		return sniffLong(int(asInt(op["bytes"])), asStr(op["shape"]))
 	}
 	if op["n"] == nil || op["desc"] == nil {
 		return "unknown-op"
@@ -254,9 +269,119 @@ func registryChurn(side string) any {
 	return "unknown-op"
 }
 
+// readerReuse: one reader, several documents of different formats, auto-detection
+func readerReuse(order []any) any {
+	small := bigDoc(3, 16)
+	docs := map[string][]byte{}
+	fmts := map[string]formats.Format{"cdx": formats.CDX15JSON, "cdx14": formats.CDX14JSON, "spdx": formats.SPDX23JSON}
+	for k, f := range fmts {
+		b, err := WriteDoc(small, f, 2)
+		if err != nil {
+			return M{"err": "write: " + err.Error()}
+		}
+		docs[k] = b
+	}
+	r := reader.New()
+	out := []any{}
+	for _, o := range order {
+		k := asStr(o)
+		if docs[k] == nil {
+			return "unknown-op"
+		}
+		got, err := r.ParseStream(bytes.NewReader(docs[k]))
+		want, werr := reader.New().ParseStreamWithOptions(bytes.NewReader(docs[k]), &reader.Options{Format: fmts[k]})
+		step := M{"doc": k}
+		switch {
+		case werr != nil:
+			step["err"] = "a fresh reader told the format fails: " + werr.Error()
+		case err != nil:
+			step["err"] = "the shared reader fails: " + err.Error()
+		default:
+			step["got"] = bigSummary(got)
+			step["want"] = bigSummary(want)
+		}
+		out = append(out, step)
+	}
+	return M{"steps": out}
+}
+
+// sniffLong: long inputs that are not an SBOM
+func sniffLong(n int, shape string) any {
+	if n < 0 || n > 64<<20 {
+		return "unknown-op"
+	}
+	var b []byte
+	switch shape {
+	case "one-line":
+		b = bytes.Repeat([]byte("A"), n)
+	case "line-between":
+		b = append(append([]byte("first line\n"), bytes.Repeat([]byte("z"), n)...), []byte("\nlast line\n")...)
+	case "cut-json":
+		b = append([]byte(`{"spdxVersion":"SPDX-2.3","name":"`), bytes.Repeat([]byte("q"), n)...) // the string never ends
+	default:
+		return "unknown-op"
+	}
+	rd := bytes.NewReader(b)
+	f, err := (&formats.Sniffer{}).SniffReader(rd)
+	pos, _ := rd.Seek(0, io.SeekCurrent)
+	out := M{"r": string(f), "pos": float64(pos)}
+	if err != nil {
+		out["r"] = "err"
+	}
+	return out
+}
+
 func oracleBig(op M, res any, exec func(M) any) []Finding {
 	var out []Finding
 	name := asStr(op["op"])
+	if name == "readerReuse" {
+		r, _ := res.(M)
+		if r == nil {
+			if s, ok := res.(string); ok && s != "unknown-op" && s != "skipped-after-hang" {
+				for _, p := range bigOpProps(op) {
+					out = append(out, Finding{p, "one reader parsing documents of several formats: " + s})
+				}
+			}
+			return out
+		}
+		msg := asStr(r["err"])
+		for i, st := range asList(r["steps"]) {
+			sm, _ := st.(M)
+			if sm == nil || msg != "" {
+				continue
+			}
+			if e := asStr(sm["err"]); e != "" {
+				msg = fmt.Sprintf("parse %d (%s): %s", i+1, asStr(sm["doc"]), e)
+			} else if !Equal(sm["got"], sm["want"]) {
+				msg = fmt.Sprintf("parse %d (%s) with detection gives %s, a fresh reader told the format gives %s", i+1, asStr(sm["doc"]), js(sm["got"]), js(sm["want"]))
+			}
+		}
+		if msg != "" {
+			for _, p := range bigOpProps(op) {
+				out = append(out, Finding{p, "one reader used for documents of several formats (" + js(op["order"]) + "): " + msg})
+			}
+		}
+		return out
+	}
+	if name == "sniffLong" {
+		what := fmt.Sprintf("detection on %d bytes that are no SBOM (%s)", asInt(op["bytes"]), asStr(op["shape"]))
+		if s, ok := res.(string); ok {
+			if s != "unknown-op" && s != "skipped-after-hang" {
+				for _, p := range bigOpProps(op) {
+					out = append(out, Finding{p, what + ": " + s})
+				}
+			}
+			return out
+		}
+		r, _ := res.(M)
+		if asStr(r["r"]) != "err" {
+			out = append(out, Finding{"C06", fmt.Sprintf("%s reports %q", what, asStr(r["r"]))})
+		}
+		if asInt(r["pos"]) != 0 {
+			out = append(out, Finding{"C06", fmt.Sprintf("%s leaves the stream at offset %d", what, asInt(r["pos"]))})
+		}
+		return out
+	}
 	if name == "registryChurn" {
 		props := bigOpProps(op)
 		r, _ := res.(M)
@@ -362,6 +487,10 @@ func bigOpProps(op M) []string {
 		return []string{"C06"}
 	case "storeBig":
 		return []string{"C19"}
+	case "readerReuse":
+		return []string{"C05", "C18"}
+	case "sniffLong":
+		return []string{"C04", "C06"}
 	case "registryChurn":
 		if asStr(op["side"]) == "writer" {
 			return []string{"C07", "C17"}
